@@ -835,6 +835,25 @@ def fam_race_core(tier="quick"):
     return L
 
 
+def fam_rw_recursive():
+    """Correspondence only (no oracle: std leaves recursive read locking unspecified -- it may
+    deadlock or panic): rt::RwLock keeps its readers as a set while the std lock inside the
+    wrapper counts guards, so after `rd ; rd ; urd` the two disagree and the wrapper's
+    `expect("loom::RwLock state corrupt")` fires when a writer is admitted."""
+    P = [
+        [["sp 1", "rd 0", "rd 0", "urd 0", "jn 1", "urd 0"], ["wr 0", "uwr 0"]],
+        [["sp 1", "rd 0", "rd 0", "urd 0", "urd 0", "jn 1"], ["wr 0", "uwr 0"]],
+        [["sp 1", "rd 0", "rd 0", "urd 0", "jn 1", "urd 0"], ["twr 0", "uwr 0"]],
+        [["sp 1", "rd 0", "rd 0", "urd 0", "jn 1", "urd 0"], ["rd 0", "urd 0"]],
+        [["sp 1", "rd 0", "trd 0", "urd 0", "st 1 1 sc", "urd 0", "jn 1"], ["ld 1 sc", "twr 0", "uwr 0"]],
+    ]
+    # not included: `rd 0 ; rd 0 ; urd 0 ; twr 0 ; urd 0` in ONE thread -- the "state corrupt" panic unwinds
+    # through the remaining read guard, whose release panics again ("invalid internal loom state"): the
+    # process aborts. Recursive read locking is unspecified in std (may deadlock or panic), so this is
+    # recorded in DESIGN.md as an observation, not as a finding.
+    return [prog_line(f"rwRR{i}", ["R", "A0"], b) for i, b in enumerate(P)]
+
+
 def fam_tls_core(tier="quick"):
     """F-tls (C17): 1-2 thread-locals and lazy statics touched from 1-4 threads in all orders."""
     big = tier != "quick"
@@ -851,6 +870,12 @@ def fam_tls_core(tier="quick"):
     L.append(prog_line("tlS1", ["A0"], [["sp 1", "jn 1", "lz 0"], ["lz 0"]]))
     # not joined: the child may still run while main finishes (lazy statics are dropped by main)
     L += exhaustive("tlE", ["A0"], [["lz 0", "tw 0"], ["st 0 1 sc ; tw 0", "st 0 1 sc ; st 0 2 sc ; tw 1"]], 1, join=False)
+    # thread-local 2 uses thread-local 0 of its own thread from its destructor (try_with while the
+    # thread is torn down must report AccessError); only in threads that initialise thread-local 0
+    d = ["tw 0 ; tw 2", "tw 2 ; tw 0", "tw 0 ; tw 2 ; tw 1 ; tw 2", "tw 0", "tw 1 ; tw 0 ; tw 2"]
+    L += exhaustive("tlF", ["A0"], [d, d], 1)
+    L.append(prog_line("tlS2", ["A0"], [["tw 2", "tw 0", "tw 2"]]))
+    L += exhaustive("tlG", ["A0"], [["tw 0 ; tw 2"], d[:3], d[:3]], 1, join=False)
     return L
 
 
@@ -871,4 +896,16 @@ def fam_fut_core(tier="quick"):
     L.append(prog_line("fuN0", ["A0", "W"], [["bo 0 1 1"]]))
     L.append(prog_line("fuN1", ["A0", "W"], [["sp 1", "bo 0 1 1", "jn 1"], ["wk 1"]]))
     L.append(prog_line("fuN2", ["A1", "W"], [["bo 0 1 1", "tkw 1"]]))
+    # wakers handed out directly: the first Pending poll spawns the waking threads with one clone
+    # of the waker each (no AtomicWaker in between, so the wake itself must carry the ordering)
+    s1 = ["wme", "st 0 1 rlx ; wme", "st 0 1 rel ; wme", "wme ; st 0 1 rel", "st 0 1 rel", "wme ; wme"]
+    for i, x in enumerate(s1):
+        L.append(prog_line(f"fuS{i}", ["A0"], [["bs 0 1 1 0", "jn 1"], x.split(" ; ")]))
+    s2 = [("wme", "st 0 1 rlx ; wme"), ("wme", "st 0 1 rel ; wme"), ("st 0 1 rlx ; wme", "wme"), ("wme", "st 0 1 rlx")]
+    if tier != "quick":
+        s2 += [("st 0 1 rlx ; wme", "st 0 1 rlx ; wme"), ("st 0 2 rlx ; wme", "st 0 1 rlx ; wme"), ("wme", "wme")]
+    for i, (x, y) in enumerate(s2):
+        L.append(prog_line(f"fuT{i}", ["A0"], [["bs 0 1 1 2"], x.split(" ; "), y.split(" ; ")]))
+    # a value already there: no Pending poll, nobody is spawned
+    L.append(prog_line("fuU0", ["A1"], [["bs 0 1 1 2"], ["wme"], ["wme"]]))
     return L
